@@ -18,10 +18,10 @@ DEMODIR=$(grep -l "zz_seed_demo_test.go" -r $SW/README.md >/dev/null 2>&1; grep 
 echo "package dir: $PKGDIR ; demo dir: $DEMODIR"
 cp $DEMO $DEMODIR/zz_seed_demo_test.go
 if grep -q "suite\." $DEMO; then RUNARGS="-run Test.*Suite -testify.m SeedDemo"; else RUNARGS="-run SeedDemo"; fi
-echo "== demo WITHOUT change"; go test -vet=off -count=1 $RUNARGS ./$DEMODIR/ 2>&1 | tail -3 | tee $OUT/demo_without.txt
+echo "== demo WITHOUT change"; go test ./$DEMODIR/ -vet=off -count=1 $RUNARGS 2>&1 | tail -3 | tee $OUT/demo_without.txt
 git apply $SW/patch.diff || { echo "patch does not apply"; exit 2; }
 echo "== build"; go build ./... 2>&1 | tail -3
-echo "== demo WITH change"; go test -vet=off -count=1 $RUNARGS ./$DEMODIR/ 2>&1 | tail -4 | tee $OUT/demo_with.txt
+echo "== demo WITH change"; go test ./$DEMODIR/ -vet=off -count=1 $RUNARGS 2>&1 | tail -4 | tee $OUT/demo_with.txt
 rm $DEMODIR/zz_seed_demo_test.go
 echo "== existing suite WITH change"; go test -vet=off -count=1 ./... 2>&1 | grep -v "no test files" | grep -v "^ok" | tail -5 | tee $OUT/suite_with.txt
 cd /verif
